@@ -119,6 +119,16 @@ def sources():
                      ('Special', (wb, ewb))):
         out.append(('phone%sRegex' % nm, getattr(ph, nm + 'PhoneNumberRegex')(*args), FLAG_IS,
                     'BasePhoneNumbers.%sPhoneNumberRegex(base word-boundary regexes) (regex.I | regex.S)' % nm))
+    for nm, attr, fl, how in (('phonePreCheckRegex', 'PreCheckPhoneNumberRegex', 0, 're.compile, no flags'),
+                              ('phoneSSNFilterRegex', 'SSNFilterRegex', 0, 're.compile, no flags'),
+                              ('phoneColonPrefixCheckRegex', 'ColonPrefixCheckRegex', 0, 're.compile, no flags'),
+                              ('phoneFormatIndicatorRegex', 'FormatIndicatorRegex', FLAG_IS, 're.IGNORECASE | re.DOTALL'),
+                              ('phoneIntlPrefixRegex', 'InternationDialingPrefixRegex', 0, 're.compile, no flags'),
+                              ('phoneMaskRegex', 'PhoneNumberMaskRegex', 0, 're.finditer on the text, no flags')):
+        out.append((nm, getattr(ph, attr), fl, 'BasePhoneNumbers.%s (%s)' % (attr, how)))
+    enph = load_class(_res('recognizers-sequence', 'recognizers_sequence', 'english_phone_numbers.py'), 'EnglishPhoneNumbers')
+    out.append(('enPhoneFalsePositivePrefixRegex', enph.FalsePositivePrefixRegex, 0,
+                'EnglishPhoneNumbers.FalsePositivePrefixRegex (re.compile, no flags)'))
     gd = load_class(_res('recognizers-sequence', 'recognizers_sequence', 'base_GUID.py'), 'BaseGUID')
     out.append(('guidRegex', gd.GUIDRegex, FLAG_IS, 'BaseGUID.GUIDRegex (regex.I | regex.S)'))
     out.append(('guidElementRegex', gd.GUIDRegexElement, 0, 'BaseGUID.GUIDRegexElement (no flags: GUIDParser.score_guid)'))
